@@ -34,12 +34,14 @@ PID = "C06"
 MANIFEST = dict(
     text="Theorems no_deadlock / close_terminates / generator_closed_once / no_task_left / delivered_is_prefix (each for the "
          "WSGI stream, the repaired WSGI event-stream relay, the ASGI stream and the ASGI event stream; every schedule, every "
-         "producer, unbounded item count) and no_deadlock_orig_refuted (the relay as it was deadlocks: schedule as witness); "
+         "producer, unbounded item count), pool_exhausted (a thread pool without a free worker: the relay's job stays queued, the consumer "
+         "never waits for it, a closed response ends within six consumer steps with the job cancelled, until then the stream only pings) "
+         "and no_deadlock_orig_refuted (the relay as it was deadlocks: schedule as witness); "
          "the transition systems are compared with the live code under forced schedules: real relay/consumer threads stepped "
          "at their queue/future/producer operations, ASGI tasks on a virtual-time event loop with scripted receive/send/"
          "producer/timer events; all schedules of enabled choices up to a depth, random ones up to 60 steps.",
-    note="Partial: real preemption inside a Python statement, GIL timing, pool exhaustion (10 workers) and wall-clock jitter of "
-         "the ping timer are not modelled; the harness forces the queue/future/producer/close operations, the flag tests and "
+    note="Partial: real preemption inside a Python statement, GIL timing and wall-clock jitter of the ping timer are not modelled; "
+         "pool exhaustion is modelled as 'the job is never picked up' (not as ten workers shared by several streams); the harness forces the queue/future/producer/close operations, the flag tests and "
          "assignments between them are collapsed into the preceding forced step (the theorems cover the fine interleavings).",
     technique="Coq proof (invariants by induction over the steps of four transition systems, ranking functions) + "
               "forced-schedule correspondence",
